@@ -2690,9 +2690,11 @@ fn generate_expression(
                     expr: ast::Expression,
                 ) -> ast::Expression {
                     match input_tyl {
-                        ir::TypeLayer::Vector(_, in_dim) => {
+                        // A vector of one element is written as a scalar so has no channels to select from
+                        ir::TypeLayer::Vector(_, in_dim) if in_dim > 1 => {
                             let swizzle = match unmod_tyl {
                                 ir::TypeLayer::Scalar(_) => "x",
+                                ir::TypeLayer::Vector(_, 1) => "x",
                                 ir::TypeLayer::Vector(_, 2) if 2 < in_dim => "xy",
                                 ir::TypeLayer::Vector(_, 3) if 3 < in_dim => "xyz",
                                 _ => return expr,
